@@ -130,6 +130,8 @@ def generate(seed, tier, idx=0):
                 case["sched"]["kind"] = "S0"
         if rng.random() < 0.2:
             case["sched"]["opcodes"] = True      # pre-emption between bytecodes
+        if rng.random() < 0.4:
+            case["sched"]["refill"] = True       # pre-emption budget per command
     elif prior == "refused":
         guard = 0
         while ref.run_state != "ENDED" and guard < 6 and ref.can_start():
